@@ -157,6 +157,9 @@ pub enum K {
     ForgetRx { ch: usize },
     // ---- arc (handle slots)
     ArcNew { h: usize, arc: usize },
+    /// move the handle of slot `h` into the calling thread's own frame (no loom operation); it is
+    /// then dropped by unwinding if the thread panics
+    ArcHold { h: usize },
     ArcClone { from: usize, to: usize },
     ArcDrop { h: usize },
     ArcForget { h: usize },
@@ -397,6 +400,7 @@ pub fn op_text(op: &Op) -> String {
         K::DropRx { ch } => write!(s, "droprx ch{}", ch),
         K::ForgetRx { ch } => write!(s, "forgetrx ch{}", ch),
         K::ArcNew { h, arc } => write!(s, "h{}=arc_new A{}", h, arc),
+        K::ArcHold { h } => write!(s, "hold h{}", h),
         K::ArcClone { from, to } => write!(s, "h{}=clone h{}", to, from),
         K::ArcDrop { h } => write!(s, "drop h{}", h),
         K::ArcForget { h } => write!(s, "forget h{}", h),
